@@ -438,6 +438,7 @@ func newSession(ld *loaded, rc RunCfg, harness, prop string, known []interp.Know
 		IntrinsicPkgs: map[string]bool{ld.pkg.Pkg.Path(): true},
 		WantSample:    rc.Samples,
 		ExtraInits:    []*ssa.Function{ld.model.Func("init")},
+		ModelPkg:      ld.model,
 		ReloadReturn:  ld.reload,
 	}
 	if hasArg {
